@@ -196,9 +196,102 @@ def run(ctx):
                        f"{names[i]} and {names[j]} are both true for {ov}", {"a": _show_set(a), "b": _show_set(b)})
     for u in sorted(undecided):
         ctx.decline(u)
-    ctx.decline("beta in [0,1) and gamma >= 1 for forward timelike vectors: needs the relational fact mag < t, outside the interval domain")
-    ctx.decline("sign of costheta/cottheta on theta- and eta-stored signatures (needs monotonicity of cos/tan on [0, pi])")
+    _beta_gamma(ctx, L)
+    ctx.decline("sign of costheta/cottheta on theta- and eta-stored signatures is not decided here; those entries are proved equal to the z-stored entry (whose sign is decided by C13.z-sign) under C01.base-agreement")
     ctx.decline("behaviour exactly at interval boundaries in float64 (open vs closed endpoints are not distinguished)")
+
+
+def _beta_gamma(ctx, L):
+    """beta in [0, 1), gamma >= 1 on forward time-like vectors, beta == 1 on light-like ones: the relational fact
+    |p| < t is built into the generators (X, Y, Z, TAU > 0, T := sqrt(TAU^2 + |p|^2)) of the Cartesian denotation (E3b)"""
+    from .. import denote, nf
+
+    ctx.rule("C13.beta-gamma",
+             "for every lorentz.beta / lorentz.gamma entry, denoted on forward time-like generators (X, Y, Z, TAU > 0; t = sqrt(TAU^2 + |p|^2); stored "
+             "coordinates by their documented definitions): beta >= 0 and 1 - beta^2 > 0, gamma >= 0 and gamma^2 - 1 >= 0, each by the evident sign of the "
+             "normal form's numerator and denominator (every term of one sign over atoms that are squares or declared positive); with TAU = 0 beta's "
+             "normal form is 1.  HELD only by that proof; VIOLATED only with a concrete forward time-like point outside the range; otherwise undecided (listed)")
+    D = denote.Denoter(L)
+    undecided = []
+    n = 0
+    for mod in ("beta", "gamma"):
+        for e in entries_of(L, f"vector._compute.lorentz.{mod}"):
+            n += 1
+            gens = [denote.generators(1, tau_stored=True)]
+            ring = denote.make_ring(gens, 0)
+            _, nodes, _ = D.denote(e, gens, [])
+            r = ring.of(nodes[0])
+            one = ring.const(1)
+            margin = (one - r * r) if mod == "beta" else (r * r - one)
+
+            def signs(x, strict):
+                num, den = nf.R(ring, x.n), nf.R(ring, x.d)
+                f = ring._strictly_signed if strict else ring.evident_sign
+                a, b = f(num), ring._strictly_signed(den) if x.d is not nf.P_ONE else 1
+                if a is None or b is None:
+                    return None
+                return a * b
+
+            v_ok = signs(r, False)  # gamma >= 0 and gamma^2 >= 1 give gamma >= 1
+            m_ok = signs(margin, mod == "beta")
+            proved = v_ok is not None and v_ok >= 0 and m_ok is not None and m_ok >= (1 if mod == "beta" else 0)
+            doc = "beta in [0, 1)" if mod == "beta" else "gamma >= 1"
+            if proved:
+                ctx.ob("C13.beta-gamma", f"{e.name} forward time-like", True, "", None, fn_where(e.fn),
+                       sample={"value": ring.show(r)[:120], "margin": ring.show(margin)[:160], "documented": doc})
+            else:
+                w = _bg_witness(nodes[0], mod)
+                if w is not None:
+                    ctx.ob("C13.beta-gamma", f"{e.name} forward time-like", False,
+                           f"{mod} = {w['value']:.6g} at the forward time-like point {w['point']}; documented {doc}", w, fn_where(e.fn))
+                else:
+                    undecided.append(f"{e.name} forward time-like")
+            if mod == "beta":
+                g0 = denote.generators(1)
+                mag2 = denote.add(denote.add(denote.sq(g0["X"]), denote.sq(g0["Y"])), denote.sq(g0["Z"]))
+                g0["T"] = denote.lib("sqrt", mag2)
+                if any("tau" in ks for ks in e.kinds):
+                    continue  # tau == 0 stored literally: beta = mag / t with t = sqrt(0 + mag2) is the t-stored case below
+                ring0 = denote.make_ring([g0], 0)
+                _, nodes0, _ = D.denote(e, [g0], [])
+                r0 = ring0.of(nodes0[0])
+                if r0.eq(ring0.const(1)):
+                    ctx.ob("C13.beta-gamma", f"{e.name} light-like", True, "", None, fn_where(e.fn))
+                else:
+                    w = _bg_witness(nodes0[0], "lightlike")
+                    if w is not None:
+                        ctx.ob("C13.beta-gamma", f"{e.name} light-like", False,
+                               f"beta = {w['value']:.9g} on the light-like vector {w['point']}; documented 1", w, fn_where(e.fn))
+                    else:
+                        undecided.append(f"{e.name} light-like")
+    ctx.anchor("beta/gamma entries", n, 24)
+    ctx.analysed["beta_gamma_undecided"] = undecided
+    if undecided:
+        ctx.decline("C13.beta-gamma left undecided (no evident-sign proof, no point outside the range): " + ", ".join(undecided))
+
+
+def _bg_witness(node, mode):
+    import math
+
+    from .. import denote
+
+    for j, pt in enumerate(denote.POINTS):
+        env = {"X1": pt["X"], "Y1": pt["Y"], "Z1": pt["Z"], "TAU1": denote.SCALARS[j % len(denote.SCALARS)] * 2.0}
+        try:
+            v = denote.numeric(node, env)
+        except (ValueError, ZeroDivisionError, OverflowError, TypeError, KeyError):
+            continue
+        if isinstance(v, complex) or v != v:
+            bad = True
+        elif mode == "beta":
+            bad = not (0 <= v < 1)
+        elif mode == "gamma":
+            bad = not (v >= 1)
+        else:
+            bad = abs(v - 1) > 1e-9
+        if bad:
+            return {"value": v if not isinstance(v, complex) else float("nan"), "point": {k: round(x, 6) for k, x in env.items()}}
+    return None
 
 
 def _f(x):
